@@ -512,6 +512,22 @@ def main(tier, seed):
                     res.violation("the typed parameter %s (%s) of a SELECT is read with file severity %s: %s" % (
                                   lit_, "in a list" if form_ == "agg" else "as the attribute", fsev_, "a well-formed literal is refused" if good_ else "a malformed literal is read without a message"),
                                   {"literal": lit_, "replay": "%s read <file with #2=HOLDER(%s,#1,$);> dump -" % (hfile_, lit_)})
+        # the typed parameter of an ENUMERATION member (OPTS.otop : OPTIONAL top_sel, top_sel = SELECT (renamed_sel, color))
+        for lit_, good_ in [("COLOR(.RED.)", True), ("COLOR(.green.)", True), ("COLOR()", False), ("COLOR( )", False), ("COLOR(.NOSUCH.)", False),
+                            ("COLOR(.RED)", False), ("COLOR(1)", False), ("$", True)]:
+            ftp = os.path.join(twd, "o.p21")
+            open(ftp, "w").write("ISO-10303-21;\nHEADER;\nFILE_DESCRIPTION(('d'),'2;1');\nFILE_NAME('f','2020-01-01T00:00:00',('a'),('o'),'p','s','a');\n"
+                                 "FILE_SCHEMA(('VERIF_ALL'));\nENDSEC;\nDATA;\n#2=OPTS($,$,$,$,$,$,$,$,$,%s);\nENDSEC;\nEND-ISO-10303-21;\n" % lit_)
+            rct, ot, et = sh([hfile_, "read", ftp, "dump", "-"], timeout=60)
+            sevl_ = [l_ for l_ in ot.split("\n") if l_.startswith("SEV read")]
+            fsev_ = int(sevl_[0].split()[3]) if sevl_ else None
+            total += 1
+            kinds_hist["typed"] = kinds_hist.get("typed", 0) + 1
+            if fsev_ is None or (good_ and fsev_ < 3) or (not good_ and fsev_ >= 2):
+                oracle_fail += 1
+                res.violation("the typed parameter %s of a SELECT with an ENUMERATION member is read with file severity %s: %s" % (
+                              lit_, fsev_, "a well-formed literal is refused" if good_ else "a malformed literal is read without a message"),
+                              {"literal": lit_, "replay": "%s read <file with #2=OPTS($,$,$,$,$,$,$,$,$,%s);> dump -" % (hfile_, lit_)})
         # entity references: a well-formed name of an existing instance is bound to exactly that instance; a name no instance has
         # (beyond 32 or 64 bits too: never folded onto an existing one), a signed, empty or alphanumeric name is reported
         ref_cases = [("#1", "#1"), ("#3", "#3"), ("#03", "#3"), ("#0001", "#1"), ("#99", None), ("#4294967297", None), ("#4294967299", None),
@@ -544,6 +560,32 @@ def main(tier, seed):
                     oracle_fail += 1
                     res.violation("the entity reference %s (%s): %s" % (ref_, "in a list" if form_ == "agg" else "as the attribute", bad_),
                                   {"literal": ref_, "replay": "%s read <file with #1, #3 = POINT and #2=HOLDER(LABEL('x'),%s,$);> dump -" % (hfile_, ref_)})
+        # nothing between two delimiters of an aggregate - (a,,b), (a,), (,a) - is no element of any kind, not an unset one either
+        pbase_ = "#1=POINT('p',0.,0.,$);\n#2=POLY(%(p)s,%(w)s,%(n)s,%(c)s,%(g)s,%(col)s,$,%(s)s,%(b)s,%(l)s,());\n"
+        pdef_ = dict(p="(#1)", w="(1.,2.,3.)", n="('a')", c="(1)", g="((1))", col="(.RED.)", s="(LABEL('a'))", b="()", l="(.T.)")
+        ecases_ = [({}, True)]
+        for key_, a_, b_ in (("p", "#1", "#1"), ("w", "1.", "2."), ("n", "'a'", "'b'"), ("c", "1", "2"), ("col", ".RED.", ".GREEN."),
+                             ("s", "LABEL('a')", "LABEL('b')"), ("b", '"0"', '"1"'), ("l", ".T.", ".F."), ("g", "(1)", "(2)")):
+            for shape_ in ("(%s,,%s)", "(%s,)", "(,%s)", "(%s, ,%s)", "(%s,%s,)"):
+                ecases_.append(({key_: shape_ % ((a_, b_)[:shape_.count("%s")])}, False))
+            ecases_.append(({key_: "(%s,%s)" % (a_, b_)}, True))
+        ecases_.append(({"g": "((1,,2))"}, False))
+        for kw_, good_ in ecases_:
+            vals_ = dict(pdef_)
+            vals_.update(kw_)
+            ftp = os.path.join(twd, "e.p21")
+            open(ftp, "w").write("ISO-10303-21;\nHEADER;\nFILE_DESCRIPTION(('d'),'2;1');\nFILE_NAME('f','2020-01-01T00:00:00',('a'),('o'),'p','s','a');\n"
+                                 "FILE_SCHEMA(('VERIF_ALL'));\nENDSEC;\nDATA;\n" + (pbase_ % vals_) + "ENDSEC;\nEND-ISO-10303-21;\n")
+            rct, ot, et = sh([hfile_, "read", ftp, "dump", "-"], timeout=60)
+            sevl_ = [l_ for l_ in ot.split("\n") if l_.startswith("SEV read")]
+            fsev_ = int(sevl_[0].split()[3]) if sevl_ else None
+            total += 1
+            kinds_hist["aggregate_elements"] = kinds_hist.get("aggregate_elements", 0) + 1
+            if fsev_ is None or (good_ and fsev_ < 3) or (not good_ and fsev_ >= 2):
+                oracle_fail += 1
+                res.violation("the aggregate %s is read with file severity %s: %s" % (
+                              list(kw_.values())[:1] or "(all well-formed)", fsev_, "well-formed elements are refused" if good_ else "an element is missing, yet there is no message"),
+                              {"literal": str(kw_), "replay": "%s read <file with #2=POLY(...%s...)> dump -" % (hfile_, list(kw_.values())[:1])})
         shutil.rmtree(twd, ignore_errors=True)
     except BuildError as e_:
         res.violation("build failed: %s" % e_, {"error": str(e_)}, found_input=False)
